@@ -132,15 +132,16 @@ Definition ei_verdict (fs : list live_frame) (e : live_exc) (interp : str) (o : 
   let spec_valid := is_some (hint_of e) && str_eqb (ex_shown e) (exc_text (t_type T) (t_msg T)) &&
                     str_eqb interp (std_text T) in
   let rep := long_repeat (t_frames T) in
-  let special := rep || negb (plain_exc e) in
-  (* ParsedException reads ExceptionInfo's output back whenever the text is well-formed *)
-  let reparse := negb (wf P T) || special ||
+  let special := negb (plain_exc e) in
+  (* ParsedException reads ExceptionInfo's output back whenever the text is well-formed (and
+     not folded: the recorded finding about parsing) *)
+  let reparse := negb (wf P T) || rep || special ||
                  match eo_more o with Some (_, _, _, r) => rtb_eqb r (Ok T) | None => true end in
   let holds := spec_valid && ei_clauses fs e o T (std_text T) && reparse in
-  (* recorded findings: recursion folding, display-time suggestions, failing __str__; the
-     implementation must then show exactly the unfolded text with its own message *)
+  (* recorded findings: display-time suggestions, failing __str__; the implementation must then
+     show exactly the standard text with its own message *)
   let T' := mkTb (t_frames T) (t_type T) (ei_msg e) in
-  let known := special && spec_valid && ei_clauses fs e o T' (plain_text T') in
+  let known := special && spec_valid && ei_clauses fs e o T' (std_text T') in
   (agree, holds, known).
 
 (* ---- the patterns ---------------------------------------------------------------------------- *)
